@@ -14,3 +14,6 @@ import (
 
 // SetVerifHook 仅用于验证：设置路由树的访问报告函数。
 func SetVerifHook(f func(locker *sync.RWMutex, site string, write bool)) { tree.VerifHook = f }
+
+// VerifDump 仅用于验证：返回路由树的结构。
+func VerifDump[T any](r *Router[T]) tree.VNode { return r.tree.VerifDump() }
